@@ -72,6 +72,9 @@ class sstr(metaclass=_StrMeta):
             return str(x, *a)
         if isinstance(x, (text.SText, core.SNum)):
             return text.to_text(x)
+        m = getattr(type(x), '__str__', None)
+        if m is not None and getattr(type(x), '__module__', '').startswith('biom'):
+            return m(x)             # may legitimately be symbolic text (Table.__str__)
         return str(x)
 
     maketrans = str.maketrans
@@ -374,9 +377,80 @@ class _Finder(importlib.abc.MetaPathFinder):
         return None
 
 
+def _smin(xs):
+    xs = list(xs)
+    best = xs[0]
+    for v in xs[1:]:
+        if v < best:
+            best = v
+    return best
+
+
+def _smax(xs):
+    xs = list(xs)
+    best = xs[0]
+    for v in xs[1:]:
+        if v > best:
+            best = v
+    return best
+
+
+def _smean(xs):
+    xs = list(xs)
+    return core.ssum(xs) / len(xs)
+
+
+def _smedian(xs):
+    xs = list(xs)
+    if not any(core.is_sym(x) for x in xs):
+        return _np.median(xs)
+    ys = []
+    for v in xs:            # insertion sort: every comparison forks, the order is exact on each path
+        k = len(ys)
+        while k > 0 and v < ys[k - 1]:
+            k -= 1
+        ys.insert(k, v)
+    n = len(ys)
+    return ys[n // 2] if n % 2 else (ys[n // 2 - 1] + ys[n // 2]) / 2.0
+
+
+_OPAQUE = [0]
+
+
+def _sstd(xs, *a, **k):
+    xs = list(xs)
+    if not any(core.is_sym(x) for x in xs):
+        return _np.std(xs, *a, **k)
+    _OPAQUE[0] += 1
+    return core.CTX.var(f"opaque_std_{len(core.CTX.vars)}")     # numpy.std: opaque (not claimed)
+
+
+class _LocaleProxy:
+    """locale.format_string on symbolic numbers yields a number hole; setlocale is a no-op"""
+    LC_ALL = 6
+
+    def setlocale(self, *a):
+        return 'C'
+
+    def format_string(self, fmt, val, grouping=False, monetary=False):
+        if core.is_sym(val):
+            return text.SText([text.Hole('num', fmt + (',grouping' if grouping else ''), val)])
+        import locale as _l
+        return _l.format_string(fmt, val, grouping=grouping)
+
+    def __getattr__(self, k):
+        import locale as _l
+        return getattr(_l, k)
+
+
 def _rebind(mod):
     """replace the C libraries a biom module imported by the models"""
     d = mod.__dict__
+    for nm, fn in (('min', _smin), ('max', _smax), ('mean', _smean), ('median', _smedian), ('std', _sstd)):
+        if nm in d and getattr(d[nm], '__module__', '') and d[nm] is getattr(_np, nm, None):
+            d[nm] = fn
+    if 'locale' in d and getattr(d['locale'], '__name__', '') == 'locale':
+        d['locale'] = _LocaleProxy()
     if d.get('np') is _np:
         d['np'] = npx
     for nm in ('zeros', 'asarray'):
